@@ -12,9 +12,11 @@ for d in sorted(os.listdir(os.path.join(HERE, "seeded"))):
     paras = [p.strip().lstrip("-* ").strip() for p in re.split(r"\n\s*\n|\n(?=[-*] )", notes) if p.strip()]
 
     def find(*keys):
-        for p in paras:
+        for i, p in enumerate(paras):
             low = p.lower()
             if any(k in low[:80] for k in keys):
+                if p.lstrip().startswith("#") and i + 1 < len(paras):      # a heading: the text is what follows
+                    p = p + " " + " ".join(paras[i + 1:i + 4])
                 return re.sub(r"\s+", " ", p)[:900]
         return ""
     files = sorted(set(re.findall(r"^\+\+\+ b/(\S+)", open(os.path.join(sd, "patch.diff")).read(), re.M)))
